@@ -320,12 +320,26 @@ def elemsSize : List Bytes → Nat
   | [] => 0
   | e :: es => minLenLen e.length + e.length + elemsSize es
 
-def small (n : Nat) : Prop := n < 1073741824
+@[reducible] def small (n : Nat) : Prop := n < 1073741824
 
 def optLen (n : Nat) (o : Option Bytes) : Prop :=
   match o with
   | none => True
   | some b => b.length = n ∧ isBytes b = true
+
+instance (n : Nat) (o : Option Bytes) : Decidable (optLen n o) := by
+  unfold optLen; cases o <;> exact inferInstance
+
+/-- result comparison as a `Bool` (for closed examples) -/
+def decodesTo (r : Except DecErr Ext) (x : Ext) : Bool :=
+  match r with
+  | .ok y => decide (y = x)
+  | .error _ => false
+
+def failsWith (r : Except DecErr Ext) (e : DecErr) : Bool :=
+  match r with
+  | .ok _ => false
+  | .error e' => decide (e' = e)
 
 structure Ext.WF (env : Env) (x : Ext) : Prop where
   version : 1 ≤ x.version ∧ x.version < 65536
